@@ -1052,6 +1052,19 @@ fn level2(ctx: &mut Ctx) {
                 }
             }
         } else {
+            // blocked on a busy socket, or spinning? a thread that waits for datagrams uses next to no CPU; one that goes round
+            // a loop without ever getting hold of (or past) a datagram uses all of it
+            let cpu0 = thread_cpu_seconds("verif-resolver");
+            std::thread::sleep(Duration::from_secs(5));
+            let cpu1 = thread_cpu_seconds("verif-resolver");
+            match (cpu0, cpu1) {
+                (Some(a), Some(b)) if !h.is_finished() && b - a > 4.5 => {
+                    ctx.violation("loop-keeps-running", "resolver-query-spins",
+                        format!("a query of the sync OneShotMdnsResolver had not returned 25 s after the hostile traffic stopped and its thread used {:.1} s of CPU in the last 5 s: the handling of a datagram does not complete", b - a),
+                        json!({"family": "level2", "idx": idx}));
+                }
+                _ => {}
+            }
             ctx.notes.push("level 2: the sync resolver's last query had not returned 20 s after the traffic stopped (its deadline is only evaluated when the socket is silent; other traffic on the group?); its thread is left behind".into());
         }
     }
@@ -1289,6 +1302,23 @@ fn level2_v6(ctx: &mut Ctx) {
     }
     super::common::report_lock_discipline(ctx, "store-stays-usable", "level2-v6");
     rt.shutdown_timeout(Duration::from_millis(200));
+}
+
+/// CPU seconds (user + system) used so far by the thread of this process that carries `name` (Linux /proc; None elsewhere)
+fn thread_cpu_seconds(name: &str) -> Option<f64> {
+    for e in std::fs::read_dir("/proc/self/task").ok()? {
+        let dir = e.ok()?.path();
+        let comm = std::fs::read_to_string(dir.join("comm")).unwrap_or_default();
+        if comm.trim() == name {
+            let stat = std::fs::read_to_string(dir.join("stat")).ok()?;
+            // fields after the parenthesised command name: state is field 3, utime 14, stime 15 (clock ticks, 100 per second)
+            let rest = &stat[stat.rfind(')')? + 2..];
+            let f: Vec<&str> = rest.split_whitespace().collect();
+            let (ut, st): (f64, f64) = (f.get(11)?.parse().ok()?, f.get(12)?.parse().ok()?);
+            return Some((ut + st) / 100.0);
+        }
+    }
+    None
 }
 
 fn report_foreign(ctx: &mut Ctx, when: &str) {
